@@ -234,22 +234,25 @@ class MeshTet1(MeshSimplex, Mesh3D):
         inc.eliminate_zeros()
         return find(inc)[:2]
 
-    def _adaptive(self, marked):
+    def _adaptive(self, marked, _growth=1):
         """Longest edge bisection."""
         if isinstance(marked, list):
             marked = np.array(marked, dtype=np.int32)
         marked = np.unique(marked)
+        marked_orig = marked
         nt = self.t.shape[1]
         nv = self.p.shape[1]
-        p = np.zeros((3, 9 * nv), dtype=np.float64)
-        t = np.zeros((4, 8 * nt), dtype=np.int32)
+        # the work arrays have a fixed size; if the closure needs more room
+        # the refinement is started again with larger ones
+        p = np.zeros((3, 9 * nv * _growth), dtype=np.float64)
+        t = np.zeros((4, 8 * nt * _growth), dtype=np.int32)
         p[:, :nv] = self.p.copy()
         t[:, :nt] = self.t.copy()
         # original element from which each element descends
         parent = np.arange(nt, dtype=np.int32)
 
-        nonconf = np.ones(8 * nv, dtype=np.int8)
-        split_edge = np.zeros((3, 8 * nv), dtype=np.int32)
+        nonconf = np.ones(8 * nv * _growth, dtype=np.int8)
+        split_edge = np.zeros((3, 8 * nv * _growth), dtype=np.int32)
         ns = 0
 
         while len(marked) > 0:
@@ -278,6 +281,8 @@ class MeshTet1(MeshSimplex, Mesh3D):
                     (nv, nv),
                 )
                 nn = len(i)
+                if nv + nn > p.shape[1] or ns + nn > split_edge.shape[1]:
+                    return self._adaptive(marked_orig, 2 * _growth)
                 nix = slice(ns, ns + nn)
 
                 split_edge[0, nix] = i
@@ -299,6 +304,8 @@ class MeshTet1(MeshSimplex, Mesh3D):
                 ns += nn
 
             # add new elements
+            if nt + nm > t.shape[1]:
+                return self._adaptive(marked_orig, 2 * _growth)
             t[:, marked] = np.vstack((t3, t0, t2, tnew))
             t[:, nt:(nt + nm)] = np.vstack((t2, t1, t3, tnew))
             parent = np.hstack((parent, parent[marked]))
